@@ -1,5 +1,6 @@
 """C03 — file, mmap and in-memory-buffer reading are observationally equivalent."""
 from e2 import E2
+from props.C02 import tname, layout_defs, layout_txt, layout_tag, TN, big_batch
 FILES = ['src/reader/page_reader.c', 'src/reader/batch_reader.c', 'src/reader/mmap_reader.c', 'src/reader/file_reader.c']
 BUDGET = {'quick': 840, 'thorough': 3600}
 H = 'harness/e2/c02_hist.c'
@@ -7,22 +8,78 @@ STUBS = ['stdio and open/fstat/mmap/munmap over ONE in-memory model file system 
          'file content produced in the same run by the real writer', 'OpenMP pragmas: sequential schedule of the _OPENMP-enabled code']
 TYPES = {0: 'INT32 OPTIONAL', 1: 'INT64 REQUIRED', 2: 'BYTE_ARRAY OPTIONAL', 3: 'BOOLEAN OPTIONAL', 4: 'DOUBLE OPTIONAL'}
 CODECS = [('unc', 'CARQUET_COMPRESSION_UNCOMPRESSED'), ('snappy', 'CARQUET_COMPRESSION_SNAPPY'), ('lz4', 'CARQUET_COMPRESSION_LZ4')]
+CD = dict(CODECS)
+OUTSIDE = '; outside: symbolic file content, dictionary/delta encoded pages (the writer emits PLAIN only), nested/repeated columns, GZIP/ZSTD (library models), more rows/pages than stated'
 
 
-def obligations(tier):
-    q = tier == 'quick'
+def legacy(tier):
+    """the obligations of the first round (thorough list = today's quick tier)"""
+    q = tier == 'legacy-quick'
     o = []
     for ct in ([0, 1, 2] if q else [0, 1, 2, 3, 4]):
         for cn, cd in (CODECS[:2] if q else CODECS):
             if q and cn != 'unc' and ct == 2: continue
             o.append(E2('three-modes/batch/%s/%s' % (TYPES[ct].replace(' ', '-'), cn), H,
                         defines=['-DMODE=2', '-DCOLTYPE=%d' % ct, '-DOPENMODE=3', '-DN=9', '-DBATCH=3', '-DCODEC=' + cd], all_lib=True, timeout=1100, stubs=STUBS, fork_max=16,
-                        bounds='2 columns (%s + INT32 REQUIRED zero-copy-eligible when uncompressed), 9 rows in 3 pages, %s; batch_size 1..10 symbolic x 3 projections; buffer, stdio and mmap in ONE path, batch boundaries / bitmaps compared pairwise' % (TYPES[ct], cn)))
+                        bounds='2 columns (%s + INT32 REQUIRED zero-copy-eligible when uncompressed; concrete content), 9 rows in 3 pages, %s; batch_size 1..10 symbolic x 3 projections; buffer, stdio and mmap in ONE path, everything a consumer observes (batch boundaries, values, bitmaps) compared byte-for-byte' % (TYPES[ct], cn) + OUTSIDE))
             o.append(E2('three-modes/column/%s/%s' % (TYPES[ct].replace(' ', '-'), cn), H,
                         defines=['-DMODE=3', '-DCOLTYPE=%d' % ct, '-DN=9', '-DBATCH=3', '-DCODEC=' + cd], all_lib=True, timeout=1100, stubs=STUBS, fork_max=16,
-                        bounds='same file, %s; metadata + column-reader content with symbolic read size 1..10, verify_checksums on/off, in all three I/O modes; batch data dereferenced after further reads (lifetime)' % cn))
+                        bounds='same file, %s; metadata (counts, schema nodes, row group metadata) + column-reader content of every column with symbolic read size 1..10, verify_checksums on/off, in all three I/O modes, compared byte-for-byte; batch data dereferenced after further reads and after the batch reader was freed (lifetime)' % cn + OUTSIDE))
     for ct in ([1, 0] if q else [1, 0, 2]):
         o.append(E2('three-modes/batch-uneven-pages/%s' % TYPES[ct].replace(' ', '-'), H,
                     defines=['-DMODE=2', '-DCOLTYPE=%d' % ct, '-DOPENMODE=3', '-DN=9', '-DPAGEPATTERN=1,2,3,2,1'], all_lib=True, timeout=1100, stubs=STUBS, fork_max=16,
-                    bounds='2 columns (%s + INT32 REQUIRED), 9 rows in pages of 1,2,3,2,1 rows, uncompressed (zero-copy eligible); batch_size 1..10 symbolic x 3 projections; buffer, stdio and mmap in one path' % TYPES[ct]))
+                    bounds='2 columns (%s + INT32 REQUIRED; concrete content), 9 rows in pages of 1,2,3,2,1 rows, uncompressed (zero-copy eligible); batch_size 1..10 symbolic x 3 projections; buffer, stdio and mmap in one path' % TYPES[ct] + OUTSIDE))
     return o
+
+
+def batch3(ct, opt, yt, yopt, n, pages, rgs, codec='unc', verify=False, timeout=2000):
+    d = ['-DMODE=2', '-DH_CT=%d' % ct, '-DH_OPT=%d' % opt, '-DH_NCOLS=3', '-DH_YT=%d' % yt, '-DH_YOPT=%d' % yopt, '-DH_PROJ=1', '-DH_BSCHOICE', '-DOPENMODE=3', '-DCODEC=' + CD[codec]] + layout_defs(n, pages, rgs)
+    if verify: d.append('-DH_VERIFYCHOICE')
+    nm = 'three-modes/batch3/%s+%s/%s/%s%s' % (tname(ct, opt), tname(yt, yopt), layout_tag(n, pages, rgs), codec, '/verify01' if verify else '')
+    return E2(nm, H, defines=d, all_lib=True, timeout=timeout, stubs=STUBS, max_paths=400000, fork_max=32,
+              bounds='3 columns (x %s %s, id INT32 REQUIRED, y %s %s; concrete content; REQUIRED fixed-width columns are zero-copy eligible when uncompressed), %s, %s; every batch_size 1..%d (one per path) x 79 projections (all columns; every index list of length 1..3 incl. repeated / reordered; the same by name)%s; buffer, stdio and mmap in ONE path: every batch checked against the table and the three transcripts (row counts, values, null bitmaps) compared byte-for-byte'
+                     % (TN[ct], 'OPTIONAL' if opt else 'REQUIRED', TN[yt], 'OPTIONAL' if yopt else 'REQUIRED', layout_txt(n, pages, rgs), codec, n + 1, ' x verify_checksums on/off' if verify else '') + OUTSIDE)
+
+
+def column3(ct, opt, yt, yopt, n, pages, rgs, codec='unc', timeout=1500):
+    d = ['-DMODE=3', '-DH_CT=%d' % ct, '-DH_OPT=%d' % opt, '-DH_NCOLS=3', '-DH_YT=%d' % yt, '-DH_YOPT=%d' % yopt, '-DH_BSCHOICE', '-DCODEC=' + CD[codec]] + layout_defs(n, pages, rgs)
+    nm = 'three-modes/column3/%s+%s/%s/%s' % (tname(ct, opt), tname(yt, yopt), layout_tag(n, pages, rgs), codec)
+    return E2(nm, H, defines=d, all_lib=True, timeout=timeout, stubs=STUBS, max_paths=100000, fork_max=32,
+              bounds='3 columns (x %s %s, id INT32 REQUIRED, y %s %s; concrete content), %s, %s; metadata (row/row-group/column counts, schema nodes, row group metadata) and the content of every column chunk through column readers with every read size 1..%d (one per path), verify_checksums on/off, in all three I/O modes, transcripts compared byte-for-byte; data of the first batch dereferenced after two further batches and after the batch reader was freed'
+                     % (TN[ct], 'OPTIONAL' if opt else 'REQUIRED', TN[yt], 'OPTIONAL' if yopt else 'REQUIRED', layout_txt(n, pages, rgs), codec, n + 1) + OUTSIDE)
+
+
+def deep():
+    o = []
+    ALL = [(ct, opt) for ct in range(7) for opt in (1, 0)]
+    Y = [(5, 1), (4, 0), (0, 1), (6, 1), (2, 0), (1, 1), (3, 1)]
+    # metadata + column readers: every type, three codecs, three layouts
+    for i, (ct, opt) in enumerate(ALL):
+        yt, yopt = Y[i % 7]
+        o.append(column3(ct, opt, yt, yopt, 9, [1, 2, 3, 2, 1], None, codec=('unc', 'snappy', 'lz4')[i % 3]))
+        o.append(column3(ct, opt, yt, yopt, 10, [2, 3], [5, 1, 4], codec=('snappy', 'lz4', 'unc')[i % 3]))
+    o.append(column3(1, 0, 5, 1, 8, 3, [4, 0, 4]))
+    o.append(column3(2, 1, 4, 0, 17, [8, 9], None))
+    # batch reader: zero-copy-eligible x column next to nullable / variable-length ones, all projections and batch sizes
+    for i, (ct, opt) in enumerate(ALL):
+        yt, yopt = Y[(i + 2) % 7]
+        o.append(batch3(ct, opt, yt, yopt, 9, [1, 2, 3, 2, 1], None, verify=(i % 4 == 0)))
+    for i, (ct, opt) in enumerate([(1, 0), (2, 0), (4, 0), (6, 0), (3, 0), (0, 0), (5, 1), (1, 1)]):
+        yt, yopt = Y[(i + 4) % 7]
+        o.append(batch3(ct, opt, yt, yopt, 10, [2, 3], [5, 1, 4]))
+    for ct, opt, yt, yopt, codec in ((1, 0, 5, 1, 'snappy'), (2, 0, 0, 1, 'lz4'), (5, 1, 4, 0, 'snappy'), (6, 0, 1, 1, 'lz4'), (4, 0, 3, 1, 'snappy'), (0, 1, 2, 0, 'lz4')):
+        o.append(batch3(ct, opt, yt, yopt, 9, 3, [6, 3], codec=codec))
+    o.append(batch3(1, 0, 5, 1, 8, 3, [4, 0, 4]))
+    o.append(batch3(2, 0, 4, 0, 12, [5, 1, 1, 5], None))
+    o.append(batch3(4, 0, 1, 1, 17, [8, 9], None))
+    # files of a few thousand rows (reader-internal chunk sizes), the three modes in one path
+    o.append(big_batch(1, 0, 3, prefix='three-modes/large-batch'))
+    o.append(big_batch(2, 1, 3, rows=2100, batch=300, ps=1, rgs=[1030, 1070], prefix='three-modes/large-batch'))
+    o.append(big_batch(1, 1, 3, rows=2600, batch=1024, ps=1, bslist=[0, 1000, 1024, 1025, 2600], prefix='three-modes/large-batch'))
+    return o
+
+
+def obligations(tier):
+    if tier == 'quick':
+        return legacy('thorough')
+    return legacy('thorough') + deep()
